@@ -451,6 +451,7 @@ impl Exec {
                 None => {
                     // quiescent: advance the clock
                     log::log(K::Quiescent);
+                    crate::actors::note_ready_streams();
                     let mut g = self.sh.lock();
                     let Some((&(deadline, _), _)) = g.timers.iter().next() else {
                         return Outcome::Quiescent;
